@@ -1941,3 +1941,15 @@ def r2_14(rep):
         else:
             rep.check(own, "scalar-own-layout:%s@try_to_rust_ty" % kind, "spelled by `self.layout(ctx)` (found `%s`)" % src[:80], b.loc(c))
     rep.need(n >= 3, "int_kind_rust_type / float_kind_rust_type call sites in try_to_rust_ty")
+
+
+@RULES.rule("R2.15", "vtable and sizedness facts pass through typedefs, alias templates and resolved references (shared with C07 R7.9)", floor=6)
+def r2_15(rep):
+    """`CompInfo::codegen` emits a `vtable_` pointer field for a class that needs a vtable of its own, i.e. has virtual functions and
+    no base that already has one; an `_address` byte for a class without sized members.  Both facts come from the HasVtable /
+    Sizedness analyses, which forward `Alias`, `TemplateAlias` and `ResolvedTypeRef` to what they name.  With `Alias` dropped from the
+    forwarding arm (seeded change) a base named through `typedef Shape ShapeT;` has no entry, and `struct ViaTd : ShapeT { virtual
+    void hit(); int r; }` gets a second vtable pointer: 32 bytes for 24, `r` at 24 for 16.  Same rule instances as R7.9."""
+    from engine import KeyFilter
+    import c07
+    c07.r7_9(KeyFilter(rep, lambda k: "HasVtable" in k or "Sizedness" in k))
